@@ -32,7 +32,7 @@ def run(ctx):
                 "encrypted, refuses a wrong password, returns nothing readable while locked, unlocks with either password, reads title, "
                 "author, page text and the label prefix back, and reports the permissions written.  Non-trivial = every case; distinct by hash.")
     ctx.assumptions = ["MD5/SHA-2/AES/zlib are python hashlib / cryptography / zlib, not oxidizePdf code",
-                       "the document content is a fixed title (ASCII), author (outside PDFDocEncoding, hence UTF-16BE) and one line of page text; the quantifier is over strength x configuration x passwords x permissions",
+                       "the document content is fixed: a title (ASCII), an author (outside PDFDocEncoding, hence UTF-16BE), an empty subject, a page-label prefix, one tagged line of page text, a text annotation with contents, a link with a URI, two form fields (a name, a value, one filled after assembly so that its widget carries an appearance stream) and a structure tree with an /ID and an /Alt - each a marker that decryption must find and the raw file must not contain; the quantifier is over strength x configuration x passwords x permissions",
                        "for revisions 2-4 the independent reader is given the password bytes the library fed to the algorithms (UTF-8); the encoding question itself is C23's open finding and is checked against ISO in C06",
                        "a wrong password is the user password with two characters put in front"]
     cfg = "MCEnc_thorough" if thorough else "MCEnc"
@@ -87,7 +87,13 @@ def run(ctx):
                 i = b.find(b"stream\n")
                 if i < 0:
                     continue
-                e["bytes"][i + 7 + 20] ^= 0x10
+                # every stream of the file (the page content is one of them; appearance streams and metadata come before it)
+                while i >= 0:
+                    if b[i - 3:i] != b"end":
+                        j = b.find(b"endstream", i)
+                        for k in range(i + 7, min(i + 7 + 160, j if j > 0 else len(b))):
+                            e["bytes"][k] ^= 0x10
+                    i = b.find(b"stream\n", i + 7)
                 return True
         return False
 
@@ -103,6 +109,6 @@ def run(ctx):
         return False
 
     for m, what in ((marker_lost, "library lost the page text after unlocking"), (wrong_accepted, "library accepted a wrong password"),
-                    (perms_differ, "library reports other permissions"), (ciphertext_touched, "one bit of the first stream's ciphertext flipped"),
+                    (perms_differ, "library reports other permissions"), (ciphertext_touched, "one bit flipped in each of the first 160 ciphertext bytes of every stream"),
                     (encrypt_dropped, "/Encrypt renamed in the trailer")):
         vlib.expect_reject(ctx, "crypto", "EncTrace", tp, m, what, marker="file", libs=("syntax", "lib"))
